@@ -36,7 +36,7 @@ RULE = ("in-memory: all operation histories over 27 operations {append/insert-fi
         "length 3 (quick) / 4 (thorough) written to ~C, ~W and ~P, versions 1.2/2.0, re-read with "
         "mnemonic_case preserve/upper/lower; plus every corpus file. distinct = distinct reached "
         "(originals, session names, normalisation) state; non-trivial = state with a duplicate "
-        "family or a blank mnemonic Added later: reads with 0..3 surplus columns next to declared blank / UNKNOWN curves, blank-only and underscore / non-ASCII names, round trips with the names placed in ~Version. Hunter round 2: a duplicated NULL with a NaN sample to write, one twin of a duplicated table mnemonic deleted again (stale suffix on the survivor) x write(wrap=...).")
+        "family or a blank mnemonic Added later: reads with 0..3 surplus columns next to declared blank / UNKNOWN curves, blank-only and underscore / non-ASCII names, round trips with the names placed in ~Version. Hunter round 2: a duplicated NULL with a NaN sample to write, one twin of a duplicated table mnemonic deleted again (stale suffix on the survivor) x write(wrap=...). Round 8: positional item assignment section[i] = item.")
 ASSUMPTIONS = [
     "names containing ':' take part only in the in-memory histories (a header line cannot carry a colon inside a mnemonic)",
     "stale suffixes after a deletion (A:2 left alone) are allowed: the statement numbers families after insertions only",
@@ -196,6 +196,11 @@ RT_NAMES = ["A", "a", "", "B", "  "]      # "  ": a mnemonic of blanks only is b
 def grid(tier):
     L = 4 if tier == "quick" else 5
     yield {"kind": "ops", "ops": [], "norm": False}
+    for names in (["A", "B", "C"], ["A", "", "B"], ["A", "a", "B"]):         # positional item assignment with a name that is already there
+        for w in ("first", "mid", "last"):
+            for n2 in ("A", "", "a", "B"):
+                for norm in (False, True):
+                    yield {"kind": "ops", "ops": [["append", x] for x in names] + [["setitem_pos", w, n2]], "norm": norm}
     for n in range(0, L):
         for pre in itertools.product(range(len(OPS)), repeat=n):
             for norm in (False, True):
@@ -236,6 +241,7 @@ def random_case(rng, tier):
         allops = OPS + [(k, w, n) for k in ("insert", "replace") for w in ("first", "last") for n in (" ", "   ", "\t")] + [("append", n) for n in (" ", "  ", "\t", "_A", "__a__", "É", "a b")] + [("insert", "first", n) for n in ("_A", "É", "é")] + \
             [("insert", "last", n) for n in NAMES] + [("replace", "last", n) for n in NAMES] + \
             [("replace", "mid", n) for n in NAMES] + [("pop", "mid"), ("del_key", "first"), ("del_key", "last")] + \
+            [("setitem_pos", w, n) for w in ("first", "mid", "last") for n in NAMES] + \
             [("attr_new", n) for n in ("A", "a", "B", "Z9")] + [("attr_replace", "first", n) for n in NAMES] + [("attr_replace", "last", "A")]
         return {"kind": "ops", "ops": [list(rng.choice(allops)) for _ in range(rng.randint(5, 12))],
                 "norm": rng.random() < 0.5, "curves": rng.random() < 0.3}
